@@ -11,6 +11,8 @@ import EdzedModel.Interval
 import EdzedProofs.Interval
 import EdzedProofs.IntervalText
 import EdzedProofs.IntervalTables
+import EdzedProofs.IntervalString
+import EdzedProofs.IntervalNotations
 import EdzedModel.Gen.Constants
 import EdzedModel.Gen.Translated
 
@@ -216,6 +218,73 @@ theorem parse_asList_idempotent {k : Kind} {spec : IvIn} {iv : List Range}
     (h : parseInterval k spec = .ok iv) : parseInterval k (listInput (asList iv)) = .ok iv :=
   asList_roundtrip iv (normal_form_sorted_full h).1 (fun r hr => ((normal_form_sorted_full h).2 r hr).1)
 
+/-- `as_string()` fed back yields the same interval: for every normal-form interval (sorted list of
+    valid ranges) of every kind, the rendering – ranges `start / stop;` (a single date for a one-day
+    date range) joined by blanks – is split by the delimiter and the separator into exactly the
+    original endpoints -/
+theorem asString_roundtrip {k : Kind} (iv : List Range) (hs : Sorted iv)
+    (hv : ∀ r ∈ iv, validEp k r.1 = true ∧ validEp k r.2 = true) :
+    parseInterval k (.str (asString k iv)) = .ok iv := by
+  obtain ⟨ha, hp⟩ := parseRanges_asString k iv hv
+  simp only [parseInterval, ha, Bool.not_true, Bool.false_eq_true, ↓reduceIte, hp, Res.map_ok,
+    sortR_of_sorted iv hs]
+
+/-- parsing any accepted specification, printing it and parsing the text again is the identity -/
+theorem parse_asString_idempotent {k : Kind} {spec : IvIn} {iv : List Range}
+    (h : parseInterval k spec = .ok iv) : parseInterval k (.str (asString k iv)) = .ok iv :=
+  asString_roundtrip iv (normal_form_sorted_full h).1 (fun r hr => ((normal_form_sorted_full h).2 r hr).1)
+
+/-- both exports denote the same interval -/
+theorem asString_asList_agree {k : Kind} {spec : IvIn} {iv : List Range}
+    (h : parseInterval k spec = .ok iv) :
+    parseInterval k (.str (asString k iv)) = parseInterval k (listInput (asList iv)) := by
+  rw [parse_asString_idempotent h, parse_asList_idempotent h]
+
+/-! ### range separators, in the code's priority (`Gen.rangeSeparatorsC`); endpoints in canonical
+notation, any number of blanks around them -/
+
+def blanks (p : List Char) : Prop := ∀ c ∈ p, c = ' '
+
+/-- `/` (first priority): every kind, incl. date-times whose renderings contain hyphens -/
+theorem range_separator_slash {k : Kind} {a b : Ep} (ha : validEp k a = true) (hb : validEp k b = true)
+    (p1 q1 p2 q2 : List Char) (h1 : blanks p1) (h2 : blanks q1) (h3 : blanks p2) (h4 : blanks q2) :
+    parseRange k (.str ((p1 ++ render k a ++ q1) ++ '/' :: (p2 ++ render k b ++ q2))) = .ok (a, b) :=
+  parseRangeStr_slash ha hb p1 q1 p2 q2 h1 h2 h3 h4
+
+/-- ` - ` (second priority): times and dates (their renderings contain neither `/` nor `-`) -/
+theorem range_separator_spaced_hyphen {k : Kind} (hk : k ≠ .datetime) {a b : Ep}
+    (ha : validEp k a = true) (hb : validEp k b = true)
+    (p1 q1 p2 q2 : List Char) (h1 : blanks p1) (h2 : blanks q1) (h3 : blanks p2) (h4 : blanks q2) :
+    parseRange k (.str ((p1 ++ render k a ++ q1) ++ ' ' :: '-' :: ' ' :: (p2 ++ render k b ++ q2))) = .ok (a, b) :=
+  parseRangeStr_spaced hk ha hb p1 q1 p2 q2 h1 h2 h3 h4
+
+/-- ` - ` between two date-times in canonical notation: their own hyphens are never preceded by a
+    blank, so the separator is found (the bare `-` is ambiguous for date-times, see the docs) -/
+theorem range_separator_spaced_hyphen_datetime {a b : Ep} (ha : validDateTime a = true)
+    (hb : validDateTime b = true) (p1 q1 p2 q2 : List Char) (h1 : blanks p1) (h2 : blanks q1)
+    (h3 : blanks p2) (h4 : blanks q2) :
+    parseRange .datetime (.str ((p1 ++ renderDateTime a ++ q1) ++ ' ' :: '-' :: ' ' ::
+      (p2 ++ renderDateTime b ++ q2))) = .ok (a, b) :=
+  parseRangeStr_spaced_datetime ha hb p1 q1 p2 q2 h1 h2 h3 h4
+
+/-- `-` (lowest priority) directly after the first endpoint: times and dates -/
+theorem range_separator_hyphen {k : Kind} (hk : k ≠ .datetime) {a b : Ep}
+    (ha : validEp k a = true) (hb : validEp k b = true)
+    (p1 p2 q2 : List Char) (h1 : blanks p1) (h3 : blanks p2) (h4 : blanks q2) :
+    parseRange k (.str ((p1 ++ render k a) ++ '-' :: (p2 ++ render k b ++ q2))) = .ok (a, b) :=
+  parseRangeStr_hyphen hk ha hb p1 p2 q2 h1 h3 h4
+
+/-- a single date stands for the one-day range -/
+theorem single_date_is_one_day_range {a : Ep} (ha : validDate a = true) (p q : List Char)
+    (h1 : blanks p) (h2 : blanks q) :
+    parseRange .date (.str (p ++ renderDate a ++ q)) = .ok (a, a) :=
+  parseRangeStr_single_date ha p q h1 h2
+
+/-- blanks around an endpoint in canonical notation are ignored -/
+theorem endpoint_blanks_ignored {k : Kind} {e : Ep} (h : validEp k e = true) (pre post : List Char)
+    (h1 : blanks pre) (h2 : blanks post) : convertStr k (pre ++ render k e ++ post) = .ok e :=
+  convertStr_render_padded h pre post h1 h2
+
 /-! ### the canonical string notation (what `as_string()` prints) parses back, for every endpoint -/
 
 /-- `HH:MM:SS[.ffffff]` (`str(dt.time)`) denotes the time it was rendered from -/
@@ -256,6 +325,69 @@ theorem month_shorter_than_three_not_matched (s : List Char) (h : (s.takeWhile i
   split
   · omega
   · rfl
+
+/-! ### further notations of a time of day, for every endpoint -/
+
+/-- `H:M` (one or two digits each), `HH:MM`, `THH:MM`, `HHMM`, `THHMM` all denote h:m:00 -/
+theorem time_notations_HM {h m : Nat} (hh : h < 24) (hm : m < 60) :
+    ∀ s ∈ [tHM h m, tHMp h m, 'T' :: tHMp h m, tHMb h m, 'T' :: tHMb h m],
+      convertStr .time s = .ok [h, m, 0, 0] := by
+  have p := time_HM_padded hh hm false
+  have pT := time_HM_padded hh hm true
+  intro s hs
+  simp only [List.mem_cons, List.not_mem_nil, or_false] at hs
+  rcases hs with rfl | rfl | rfl | rfl | rfl
+  · exact time_HM_unpadded hh hm
+  · simpa [optT] using p.1
+  · simpa [optT] using pT.1
+  · simpa [optT] using p.2
+  · simpa [optT] using pT.2
+
+/-- `H:M:S` (one or two digits each), `HH:MM:SS`, `THH:MM:SS`, `HHMMSS`, `THHMMSS` all denote h:m:s -/
+theorem time_notations_HMS {h m s : Nat} (hh : h < 24) (hm : m < 60) (hs : s < 60) :
+    ∀ b ∈ timeBases h m s, convertStr .time b = .ok [h, m, s, 0] := by
+  have p := time_HMS_padded hh hm hs false
+  have pT := time_HMS_padded hh hm hs true
+  intro b hb
+  simp only [timeBases, List.mem_cons, List.not_mem_nil, or_false] at hb
+  rcases hb with rfl | rfl | rfl | rfl | rfl
+  · exact time_HMS_unpadded hh hm hs
+  · simpa [optT] using p.1
+  · simpa [optT] using pT.1
+  · simpa [optT] using p.2
+  · simpa [optT] using pT.2
+
+/-- each of these five followed by a decimal point or a decimal comma and 1 to 6 digits: the digits,
+    right-padded with zeros, are the microseconds (`fracUs`) -/
+theorem time_notations_fraction {h m s : Nat} (hh : h < 24) (hm : m < 60) (hs : s < 60)
+    (c : Char) (hc : c = '.' ∨ c = ',') (q : List Char) (hq : q ≠ [])
+    (hd : ∀ z ∈ q, isDigit z = true) (hl : q.length ≤ 6) :
+    ∀ b ∈ timeBases h m s, convertStr .time (b ++ c :: q) = .ok [h, m, s, fracUs q] :=
+  time_fraction_notations hh hm hs c hc q hq hd hl
+
+/-- `k` fraction digits writing the number `v` mean `v · 10^(6−k)` µs; a fraction is always below 1 s -/
+theorem fraction_digits_value (k v : Nat) (hk : k ≤ 6) (hv : v < 10 ^ k) :
+    fracUs (pad k v) = v * 10 ^ (6 - k) ∧ (pad k v).length = k ∧ ∀ z ∈ pad k v, isDigit z = true :=
+  ⟨fracUs_pad k v hk hv, pad_length k v, pad_digits k v⟩
+
+/-! ### further notations of a date-time, for every endpoint (years 1..9999) -/
+
+/-- ISO 8601 extended `YYYY-MM-DDTHH:MM:SS[.ffffff]` (through `datetime.fromisoformat`) -/
+theorem datetime_notation_iso_extended {e : Ep} (h : validDateTime e = true) :
+    convertStr .datetime (isoExt e) = .ok e := iso_ext h
+
+/-- traditional `D. Mon YYYY HH:MM:SS[.ffffff]` (day first with a period, month abbreviated to three
+    letters as written or in lower case, year, time – through `_RE_TIME`, `_RE_YEAR`, `_RE_MONTH`, `_RE_DAY`) -/
+theorem datetime_notation_traditional {e : Ep} (h : validDateTime e = true) (lower : Bool) :
+    convertStr .datetime (tradCanon lower e) = .ok e := trad_canon h lower
+
+/-- the same with ANY three letters `a b c` (none a capital `T`) that `_name_to_month` maps to the month -/
+theorem datetime_notation_traditional_any_case (a b c : Char) (ha : isAlpha a = true) (hb : isAlpha b = true)
+    (hc : isAlpha c = true) (hT : a ≠ 'T' ∧ b ≠ 'T' ∧ c ≠ 'T') {e : Ep} (h : validDateTime e = true)
+    (hm : nameToMonth [a, b, c] = some (e.getD 1 0)) :
+    convertStr .datetime (tradDMY a b c e) = .ok e :=
+  convertStr_datetime_of_stripped (trad_clean a b c ha hb hc h).1 (trad_clean a b c ha hb hc h).2
+    (trad_core a b c ha hb hc hT h hm)
 
 /-! ### rejection of malformed input -/
 
@@ -395,6 +527,14 @@ example : contains .time [([23, 50, 0, 0], [1, 30, 0, 0])] [0, 15, 0, 0] = true 
 example : contains .date [([12, 10], [1, 15])] [12, 31] = true ∧
     contains .date [([12, 10], [1, 15])] [1, 15] = true ∧
     contains .date [([12, 10], [1, 15])] [1, 16] = false := by decide
+
+example : tradCanon false [2020, 3, 1, 12, 0, 0, 0] = "1. Mar 2020 12:00:00".toList ∧
+    isoExt [2020, 3, 1, 12, 0, 0, 500000] = "2020-03-01T12:00:00.500000".toList ∧
+    tHM 7 5 = "7:5".toList ∧ timeBases 7 5 9 = ["7:5:9".toList, "07:05:09".toList, "T07:05:09".toList,
+      "070509".toList, "T070509".toList] := by decide +kernel
+
+example : asString .date [([3, 1], [3, 1]), ([12, 10], [1, 15])] = "Mar 1; Dec 10 / Jan 15;".toList := by
+  decide +kernel
 
 end Edzed.Interval
 
